@@ -508,6 +508,10 @@ def stream_table(ctx, tcases, only=None):
                 if not (r.get('exc') == 'BiogemeError' and 'must generate a numpy array' in r.get('msg', '')):
                     ctx.violation('C10/shadow/failed', 'generate_draws failed with a native type', c, 'a table', r, how)
                 continue
+            if r['table'].get('shape') != [c['N'], c['R'], 2]:
+                ctx.violation('C10/table/shape', 'generate_draws: the table does not have shape (observations, draws, variables)', c,
+                              [c['N'], c['R'], 2], r['table'].get('shape'), how)
+                continue
             tb = r['table']['float']
             col = [[tb[o][j][1] for j in range(c['R'])] for o in range(c['N'])]       # 'zz' is second in sorted order
             forced = [[tag_value(5, o, j) for j in range(c['R'])] for o in range(c['N'])]
@@ -666,6 +670,8 @@ def native_series(c, o):
     tbf = tb.get('float') if tb else None
     if tb and 'int' in tb:
         tbf = [[[x / SCALE for x in cell] for cell in plane] for plane in tb['int']]
+    if tb and tb.get('shape') != [len(c['rows']), c['R'], K]:
+        return None, f'the table handed to the engine has shape {tb.get("shape")} instead of {[len(c["rows"]), c["R"], K]}'
     chosen = None
     for gi, gen in enumerate(gens_):
         by_type = {n: a for n, a in gen}
@@ -713,7 +719,8 @@ def stream_native(ctx, only=None):
         o = r.get(path) or {}
         if 'exc' in o:
             odd_anti = c['R'] % 2 == 1 and any('ANTI' in t for _, t in c['draws'])
-            if odd_anti and (shape_refusal(o['exc']) or 'even number of draws' in o['exc']):
+            if odd_anti and o['exc'].startswith(('BiogemeError', 'ValueError')):
+                # antithetic types need an even number of draws: refusing an odd R is the correct outcome
                 st.record({'refused_odd_R_antithetic': [t for _, t in c['draws']], 'R': c['R']}, nontrivial=False)
                 continue
             ctx.violation(f'C10/native/{path}/error', 'evaluation of a Monte-Carlo formula over native draws failed', witness(c, path=path),
@@ -727,9 +734,17 @@ def stream_native(ctx, only=None):
         gens_used[gi] = gens_used.get(gi, 0) + 1
         types_seen.update(t for _, t in c['draws'])
         # the recorded arrays have the requested shape
+        bad_shape = False
         for n, a in ser.items():
-            if len(a) != len(c['rows']) or any(len(row) != c['R'] for row in a):
-                ctx.violation('C10/native/shape', 'a native generator returned another shape and was not refused', witness(c), None, None, how)
+            if not isinstance(a, list) or len(a) != len(c['rows']) or any(not isinstance(row, list) or len(row) != c['R'] for row in a):
+                bad_shape = True
+        if bad_shape:
+            ctx.violation('C10/native/shape', 'a native generator returned another shape and was not refused', witness(c), None, None, how)
+            continue
+        if len(o['values']) != len(c['rows']):
+            ctx.violation('C10/native/count', 'number of simulated values differs from the number of observations', witness(c, path=path),
+                          len(c['rows']), len(o['values']), how)
+            continue
         benv = {k: v['value'] for k, v in c['betas'].items()}
         plain = strip_sids(c['tree'])
         for i, (row, v) in enumerate(zip(c['rows'], o['values'])):
